@@ -143,6 +143,7 @@ def gen_ops(rng, cfg, nops):
         'misuse': rng.choice([0, 0, 0.3, 1.0]),
         'parfile': rng.choice([0, 0.4, 1.0]),
         'update_repeat': rng.choice([0, 0.5, 1.5]),
+        'modify_bounds': rng.choice([0, 0.4, 1.0]),
         'module_compile': rng.choice([0, 0.3, 1.0]),
         'rebuild': rng.choice([0, 0.5, 1.0]) if cfg['kind'] == 'real' else 0,
         'rebuild_without': rng.choice([0, 0.4, 0.8])
@@ -195,6 +196,11 @@ def gen_ops(rng, cfg, nops):
             ops.append([k])
         elif k in ('module_compile', 'rebuild', 'rebuild_without'):
             ops.append([k])
+        elif k == 'modify_bounds':
+            # the component-level API (Fittable.modify_bounds) instead of the
+            # optimizer's
+            n = rng.choice(names)
+            ops.append([k, n, _sbounds(rng) if n in signed else _bounds(rng)])
         elif k == 'via_other':
             # a second optimizer attached to the same model and observation
             # changes a setting (the tables are theirs, not the optimizer's)
@@ -406,6 +412,7 @@ def execute(case, keep_text=False):
     sig = []
     last_vec = [None]
     other = [None]
+    comp_bounds = {}    # bounds changed on a component (seen at next build)
     stale = [False]     # model rebuilt since the last compile: what the
     #                     optimizer compiled refers to tables that are gone
     dirty_since_compile = False
@@ -570,15 +577,15 @@ def execute(case, keep_text=False):
             log.add('drv', 'op', op)
             gone = None
             if k in ('enable_fit', 'disable_fit', 'set_mode', 'set_boundary',
-                     'set_factor_boundary', 'set_prior', 'direct_write') and \
-                    op[1] not in ref.params:
+                     'set_factor_boundary', 'set_prior', 'direct_write',
+                     'modify_bounds') and op[1] not in ref.params:
                 gone = op[1]
             elif k == 'via_other' and op[2] not in ref.params:
                 gone = op[2]
             if gone is not None:
                 # a parameter the model no longer has (its component was
                 # removed before a rebuild): naming it is an error now
-                if k in ('direct_write', 'via_other'):
+                if k in ('direct_write', 'via_other', 'modify_bounds'):
                     continue
                 raised = False
                 try:
@@ -690,6 +697,29 @@ def execute(case, keep_text=False):
                     fitted.add(c['name'])
                 check_values(step, 'update_model')
                 log.add('opt', 'update', vec)
+            elif k == 'modify_bounds':
+                n = op[1]
+                if cfg['kind'] == 'real':
+                    # on the component that owns the parameter: the model's
+                    # collected table keeps what it has until the next build()
+                    comps = [model._planet, model._star,
+                             model._pressure_profile,
+                             model._temperature_profile, model._chemistry] + \
+                        list(getattr(model._chemistry, '_gases', [])) + \
+                        list(model.contribution_list)
+                    own = [c_ for c_ in comps
+                           if n in getattr(c_, '_param_dict', {})]
+                    if not own:
+                        continue
+                    real_call(step, k, own[0].modify_bounds, n, list(op[2]))
+                    comp_bounds[n] = list(op[2])
+                else:
+                    real_call(step, k, _owner_obj(ref, n, model,
+                                                  obs).modify_bounds,
+                              n, list(op[2]))
+                    ref.params[n]['bounds'] = list(op[2])
+                out.bump('probes', 'bounds_changed_on_component')
+                dirty_since_compile = True
             elif k == 'module_compile':
                 # the public module-level function, called the way a script
                 # may: no prior table handed in
@@ -736,7 +766,8 @@ def execute(case, keep_text=False):
                     pr = ref.params[p0['name']]
                     pr['fit'] = p0['fit']
                     pr['mode'] = p0['mode']
-                    pr['bounds'] = list(p0['bounds'])
+                    pr['bounds'] = list(comp_bounds.get(p0['name'],
+                                                        p0['bounds']))
                 for d0 in cfg['mderived']:
                     ref.derived[d0['name']]['compute'] = d0['compute']
                 out.bump('probes', 'model_rebuilt')
@@ -762,7 +793,8 @@ def execute(case, keep_text=False):
                         pr = ref.params[p0['name']]
                         pr['fit'] = p0['fit']
                         pr['mode'] = p0['mode']
-                        pr['bounds'] = list(p0['bounds'])
+                        pr['bounds'] = list(comp_bounds.get(p0['name'],
+                                                            p0['bounds']))
                 for d0 in cfg['mderived']:
                     ref.derived[d0['name']]['compute'] = d0['compute']
                 if 'clouds_pressure' in model.fittingParameters:
